@@ -139,6 +139,9 @@ def handle_trace_data_thread_terminate_pid(parser, events):
 
 
 def handle_trace_string_global(parser, events):
+    if not events[0].func_qualifier & DgbFuncQual.DBG_FUNC_START.value:
+        # A continuation chunk of a multi-record string, the whole string is reported on its last chunk.
+        return None
     debugid = 0
     str_id = 0
     vstr = b''
@@ -182,6 +185,9 @@ def handle_trace_string_proc_exit(parser, events):
 
 
 def handle_trace_string_threadname(parser, events):
+    if not events[0].func_qualifier & DgbFuncQual.DBG_FUNC_START.value:
+        # A continuation chunk of a multi-record name, the whole name is reported on its last chunk.
+        return None
     name = b''.join([e.data for e in events]).replace(b'\x00', b'').decode()
     event = TraceStringThreadname(events, name)
     parser.tids_names[events[0].tid] = event.name
@@ -189,6 +195,9 @@ def handle_trace_string_threadname(parser, events):
 
 
 def handle_trace_string_threadname_prev(parser, events):
+    if not events[0].func_qualifier & DgbFuncQual.DBG_FUNC_START.value:
+        # A continuation chunk of a multi-record name, the whole name is reported on its last chunk.
+        return None
     name = b''.join([e.data for e in events]).replace(b'\x00', b'').decode()
     event = TraceStringThreadnamePrev(events, name)
     parser.tids_names[events[0].tid] = event.name
